@@ -118,7 +118,13 @@ def check_day(ctx, day, tod):
                 ctx.fail('dt2str_roundtrip', 'dt(dt2str(%r)) = dt(%r) = %r' % (X, s2, got), case=dict(term, spelling='dt2str'))
         except Exception as e:
             ctx.fail('dt2str_roundtrip', 'dt(dt2str(%r)) raised %s' % (X, core.exc_str(e)), case=dict(term, spelling='dt2str'))
-    for name, f in (('ymd(datetime)', lambda: ymd(T)), ('ymd(iso)', lambda: ymd(T.isoformat())), ('ymd(y,m,d,h,mi,s)', lambda: ymd(y, m, d, h, mi, s)), ('ymd(np[us])', lambda: ymd(np.datetime64(T.isoformat(), 'us')))):
+    for fmt in ('%Y-%b-%d', '%Y %B %d', '%Y/%b/%d', '%Y.%B.%d'):
+        sname = D.strftime(fmt)
+        eq('year-first month name %r' % sname, lambda: dt(sname), D)
+    sname = Ts.strftime('%Y %B %d %H:%M:%S')
+    eq('year-first month name with time %r' % sname, lambda: dt(sname), Ts)
+    for name, f in (('ymd(us string, dialect=us)', lambda: ymd(us_t, dialect='us')), ('ymd(us date string, dialect=us)', lambda: ymd('%02d-%02d-%04d' % (m, d, y), dialect='us')),
+                    ('ymd(uk string)', lambda: ymd(uk_t)), ('ymd(datetime)', lambda: ymd(T)), ('ymd(iso)', lambda: ymd(T.isoformat())), ('ymd(y,m,d,h,mi,s)', lambda: ymd(y, m, d, h, mi, s)), ('ymd(np[us])', lambda: ymd(np.datetime64(T.isoformat(), 'us')))):
         ctx.monitors['ymd_drops_time'] += 1
         try:
             got = f()
